@@ -67,6 +67,7 @@ type lexer struct {
 	n     int
 	fault bool // evaluation has failed; accessed by the parser only
 	token chan interface{}
+	done  chan struct{}
 
 	mu     sync.Mutex
 	err    error
@@ -80,6 +81,7 @@ func newLexer(env *ExecEnv, r io.RuneScanner) *lexer {
 		env:    env,
 		r:      r,
 		token:  make(chan interface{}),
+		done:   make(chan struct{}),
 		cancel: make(chan struct{}),
 	}
 	go l.run()
@@ -87,6 +89,13 @@ func newLexer(env *ExecEnv, r io.RuneScanner) *lexer {
 }
 
 func (l *lexer) Lex(lval *yySymType) int {
+	select {
+	case <-l.cancel:
+		// an error has been recorded: the input ends here, whether or not
+		// the lexer has another token ready
+		return 0
+	default:
+	}
 	switch tok := (<-l.token).(type) {
 	case token:
 		lval.expr.s = tok.val
@@ -94,13 +103,21 @@ func (l *lexer) Lex(lval *yySymType) int {
 	case int:
 		lval.op = ops[tok]
 		return tok
+	case lexError:
+		// reported here, in token order, so that the error that is returned
+		// does not depend on how far ahead the lexer happens to be
+		l.Error(string(tok))
 	}
 	return 0
 }
 
+// lexError is a lexical error on its way to the parser.
+type lexError string
+
 func (l *lexer) run() {
 	defer func() {
 		close(l.token)
+		close(l.done)
 
 		if e := recover(); e != nil && e != error(errBailout) {
 			// re-panic
@@ -333,7 +350,10 @@ func (l *lexer) lexOp() action {
 			}
 		}
 	default:
-		l.Error(fmt.Sprintf("unexpected %q", r))
+		select {
+		case l.token <- lexError(fmt.Sprintf("unexpected %q", r)):
+		case <-l.cancel:
+		}
 		return nil
 	}
 	l.emit(op)
@@ -353,11 +373,29 @@ func (l *lexer) emit(typ int) {
 		tok = typ
 	}
 	select {
+	case <-l.cancel:
+		// an error has been recorded: nothing more is delivered
+		panic(errBailout)
+	default:
+	}
+	select {
 	case l.token <- tok:
 	case <-l.cancel:
 		// bailout
 		panic(errBailout)
 	}
+}
+
+// stop cancels the lexer and waits until its goroutine has finished.
+func (l *lexer) stop() {
+	l.mu.Lock()
+	select {
+	case <-l.cancel:
+	default:
+		close(l.cancel)
+	}
+	l.mu.Unlock()
+	<-l.done
 }
 
 func (l *lexer) read() (rune, error) {
@@ -376,7 +414,7 @@ func (l *lexer) Error(s string) {
 	switch {
 	case strings.HasPrefix(s, "syntax error: "):
 		s = s[14:]
-		if l.err != nil && s == "unexpected EOF" {
+		if l.err != nil && strings.HasPrefix(s, "unexpected EOF") {
 			return // lexing was interrupted
 		}
 	case strings.HasPrefix(s, "runtime error: "):
